@@ -62,6 +62,12 @@ Theorem truncation_prefix :
     exists k, sym_load (firstn (44 + j) (encode sp frames)) = LOk (s_rate sp) (firstn k frs).
 Proof. exact truncation_lemma. Qed.
 
+(** ... and cutting it inside the header (after the RIFF marker) yields an error value. *)
+Theorem truncated_header_error :
+  forall (sp : spec) (frames : list (list Z)) (k : nat),
+    (4 <= k < 44)%nat -> sym_load (firstn k (encode sp frames)) = LErr.
+Proof. exact truncated_header_lemma. Qed.
+
 (** Streaming equals loading: over ANY conforming decoder of [audio] (any packet sizes, any
     seek-landing function), from ANY start position and for ANY history of seeks and frame
     requests, [frame_at_index i] returns frame [i] of the audio (silence beyond its end),
